@@ -312,6 +312,26 @@ class Program(object):
                 m.prog = self
         for f in self.functions.values():
             f.prog = self
+        self._establish_issec()
+
+    def _establish_issec(self):
+        """`_issec` is the type test isinstance(node, SecurityBase) when it is assigned in exactly two places of bt/core.py: False in Node.__init__, True in SecurityBase.__init__."""
+        from . import sym
+        writes = []
+        tree = self.trees.get("bt/core.py")
+        for cls in (tree.body if tree is not None else []):
+            if not isinstance(cls, ast.ClassDef):
+                continue
+            for fn in cls.body:
+                for node in (ast.walk(fn) if isinstance(fn, ast.FunctionDef) else []):
+                    ts = node.targets if isinstance(node, ast.Assign) else [node.target] if isinstance(node, (ast.AugAssign, ast.AnnAssign)) else []
+                    for t in ts:
+                        for x in ast.walk(t):
+                            if isinstance(x, ast.Attribute) and x.attr == "_issec":
+                                v = node.value
+                                ok = isinstance(x.value, ast.Name) and x.value.id == "self" and isinstance(node, ast.Assign) and isinstance(v, ast.Constant)
+                                writes.append((cls.name, fn.name, v.value if ok else "?"))
+        sym.ISSEC_IS_SECURITY = sorted(writes, key=repr) == sorted([("Node", "__init__", False), ("SecurityBase", "__init__", True)], key=repr)
 
     # ---- hierarchy -------------------------------------------------------------------------
     def mro(self, cname):
